@@ -80,7 +80,12 @@ def write_errors_to_yaml(container, yaml_doc):
                 else:
                     _yaml_section[-1]["matrix"] = _err_obj.cov_mat  # .tolist()
             elif _mtype == "correlation":
-                _yaml_section[-1]["matrix"] = _err_obj.cor_mat  # .tolist()
+                if _is_relative:
+                    # the correlations of the RELATIVE errors: those of the absolute covariance matrix change sign with the data
+                    _err_rel = _err_obj.error_rel
+                    _yaml_section[-1]["matrix"] = _err_obj.cov_mat_rel / np.outer(_err_rel, _err_rel)
+                else:
+                    _yaml_section[-1]["matrix"] = _err_obj.cor_mat  # .tolist()
                 _yaml_section[-1]["error_value"] = _err_val
             else:
                 raise TypeError("Unknown error matrix type '{}'. " "Valid: 'correlation' or 'covariance'.")
